@@ -30,7 +30,7 @@ REAL_VS_STUB = {"real": ["MultiAgentDomainsConverter.locate_domains/export_combi
                          "MultiAgentProblemsConverter.combine_problems/export_combined_problem, DomainParser, ProblemParser, "
                          "DomainExporter, ProblemExporter"],
                 "stub": ["pathlib.Path.glob order (sorted then tape-permuted)", "__hash__ seam", "raw file sink / open seam"]}
-TECHNIQUE = "deterministic simulation: seeded directory-discovery orders, call histories with bystander domains, unreadable/torn agent files and failed/crashed exports; set-union reference model"
+TECHNIQUE = "deterministic simulation: seeded directory-discovery orders, call histories with bystander domains, unreadable/torn agent files, failed/crashed exports, same-size regeneration under a constant file clock, caller edits between two combinations; set-union reference model"
 DESIGN_REF = "DESIGN.md §5 C17, §3.3"
 LEVEL_TEXT = ("seeded exploration of (split x discovery order x history x fault plan); the combination is compared with a "
               "set-union model and bystanders are digested before and after; sampling, not proof")
